@@ -523,3 +523,87 @@ mutant("c06-transport-onclose-outside-once", "C06", "C06-D1", "engine.io/transpo
 }""")
 mutant("c06-store-delete-not-wired", "C06", "C06-D2", "engine.io/server.go",
        "s.pingInterval, s.pingTimeout, s.debug, s.store.delete)", "s.pingInterval, s.pingTimeout, s.debug, nil)")
+
+# ---------------------------------------------------------------- C12
+mutant("c12-chain-continues-after-rejection", "C12", "C12-D1", "middleware.go",
+       """	for _, f := range funcs {
+		err := f(socket, handshake)
+		if err != nil {
+			return &middlewareError{v: err}
+		}
+	}
+	return nil""",
+       """	var first error
+	for _, f := range funcs {
+		err := f(socket, handshake)
+		if err != nil && first == nil {
+			first = &middlewareError{v: err}
+		}
+	}
+	return first""")
+mutant("c12-event-chain-swallows-rejection", "C12", "C12-D1", "middleware.go",
+       """		err := s.callMiddlewareFunc(f, values)
+		if err != nil {
+			return err
+		}""",
+       """		err := s.callMiddlewareFunc(f, values)
+		if err != nil {
+			break
+		}""")
+mutant("c12-doconnect-before-chain", "C12", "C12-D2", "namespace.go",
+       """	err = n.runMiddlewares(socket, handshake)
+	if err != nil {
+		return nil, err
+	}
+
+	return socket, n.doConnect(socket)""",
+       """	n.doConnect(socket)
+	err = n.runMiddlewares(socket, handshake)
+	if err != nil {
+		return nil, err
+	}
+
+	return socket, nil""")
+mutant("c12-skip-for-any-recovery-config", "C12", "C12-D2", "namespace.go",
+       "	if n.server.connectionStateRecovery.Enabled && !n.server.connectionStateRecovery.UseMiddlewares && socket.Recovered() {",
+       "	if n.server.connectionStateRecovery.Enabled && socket.Recovered() {")
+mutant("c12-handler-before-chain", "C12", "C12-D5", "server_socket.go",
+       """	err = s.callMiddlewares(append([]reflect.Value{reflect.ValueOf(eventName)}, values...))
+	if err != nil {
+		s.onError(err)
+		return
+	}
+
+	if !s.Connected() {""",
+       """	err = s.callMiddlewares(append([]reflect.Value{reflect.ValueOf(eventName)}, values...))
+	if err != nil {
+		s.onError(err)
+	}
+
+	if !s.Connected() {""")
+mutant("c12-no-connect-error-on-rejection", "C12", "C12-D4", "server_conn.go",
+       """		if errors.As(err, &mErr) {
+			c.connectError(mErr.data(), nsp.Name())
+		} else {""",
+       """		if errors.As(err, &mErr) {
+			c.connectError(fmt.Errorf("sio: connection refused"), nsp.Name())
+		} else {""")
+mutant("c12-event-chain-without-name", "C12", "C12-D5", "server_socket.go",
+       "	err = s.callMiddlewares(append([]reflect.Value{reflect.ValueOf(eventName)}, values...))", "	_ = eventName\n	err = s.callMiddlewares(values)")
+mutant("c12-middleware-under-lock", "C12", "C12-D1", "middleware.go",
+       """	n.middlewareFuncsMu.RLock()
+	funcs := slices.Clone(n.middlewareFuncs)
+	n.middlewareFuncsMu.RUnlock()
+""",
+       """	n.middlewareFuncsMu.RLock()
+	defer n.middlewareFuncsMu.RUnlock()
+	funcs := slices.Clone(n.middlewareFuncs)
+""")
+mutant("c12-connected-before-chain", "C12", "C12-D2", "server_socket.go",
+       """	if previousSession != nil {
+		s.id = previousSession.SID""",
+       """	if previousSession != nil {
+		s.connected = true
+		s.id = previousSession.SID""")
+mutant("c12-use-prepends", "C12", "C12-D1", "middleware.go",
+       "	n.middlewareFuncs = append(n.middlewareFuncs, f)", "	n.middlewareFuncs = append([]NspMiddlewareFunc{f}, n.middlewareFuncs...)")
